@@ -110,7 +110,11 @@ pub(crate) trait FixedChannelRegion: ChannelRegion {
 
 impl<F: FixedChannelRegion> RegionHandler for FixedChannelPlan<F> {
     fn process_join_accept(&mut self, c_f_list: Option<&CfList>) {
-        if let Some(CfList::FixedChannel(channel_mask)) = c_f_list {
+        // A mask that leaves nothing to transmit on at the default data rate is invalid and
+        // ignored, by the same rule LinkADRReq masks are validated with.
+        if let Some(CfList::FixedChannel(channel_mask)) = c_f_list
+            && self.channel_mask_validate(channel_mask, Some(self.get_default_datarate()))
+        {
             self.channel_mask_set(channel_mask.clone());
         }
     }
